@@ -629,6 +629,28 @@ theorem pres_lapPrefix (ph : Phys) : Pres I (lapPrefix ph) := by
     intro s hs
     exact pres_bind _ _ (pres_getlapFull ops ph _) (fun _ => pres_pure _) s hs
 
+/-- a lapped seek keeps whatever its inner seek keeps: collecting the lapping samples, priming and `lapout` are made of the same steps -/
+theorem pres_seekLap (ph : Phys) (localseek : M Int) (hl : Pres I localseek) : Pres I (seekLap ph localseek) := by
+  unfold seekLap
+  apply pres_get_bind
+  intro s hs
+  refine (?_ : Pres I _) s hs
+  apply pres_ite
+  · exact pres_pure _
+  · apply pres_bind _ _ (pres_lapPrefix ops ph)
+    intro r
+    apply pres_ite
+    · exact pres_pure _
+    · apply pres_bind _ _ hl
+      intro r2
+      apply pres_ite
+      · exact pres_pure _
+      · apply pres_bind _ _ (pres_initprime ops ph _)
+        intro r3
+        apply pres_ite
+        · exact pres_pure _
+        · exact pres_bind _ _ (pres_doLapout ops) (fun _ => pres_pure _)
+
 end generic
 
 theorem linkOf_spec (vf : VF) (serial : Int) (link : Nat) (h : linkOf vf serial = some link) : vf.serialnos[link]! = serial := by
@@ -767,13 +789,16 @@ theorem jOps (s0 : VF) : InvOps (J s0) where
   take := fun s h n => ⟨sinvOps.take s h.1 n, sameFile_trans h.2 ⟨rfl, rfl, rfl, rfl, rfl, rfl, rfl, rfl⟩⟩
   exec := fun f p s h hnr => ⟨sinvOps.exec f p s h.1 hnr, sameFile_trans h.2 (same_execPlan f p s hnr)⟩
 
-/-- states reachable by any sequence of reads, sample-accurate seeks, page seeks and raw seeks -/
+/-- states reachable by any sequence of reads, sample-accurate seeks, page seeks and raw seeks, plain or lapped -/
 inductive Reach (ph : Phys) (s : VF) : VF → Prop
   | refl : Reach ph s s
   | read (t : VF) (n : Int) : Reach ph s t → Reach ph s ((readFloat ph n).run t).2
   | seek (t : VF) (pos : Int) : Reach ph s t → Reach ph s ((pcmSeek ph (rawSeek ph) pos).run t).2
   | page (t : VF) (pos : Int) : Reach ph s t → Reach ph s ((pcmSeekPage ph (rawSeek ph) pos).run t).2
   | raw (t : VF) (pos : Int) : Reach ph s t → Reach ph s ((rawSeek ph pos).run t).2
+  | seekLap (t : VF) (pos : Int) : Reach ph s t → Reach ph s ((File.seekLap ph (pcmSeek ph (rawSeek ph) pos)).run t).2
+  | pageLap (t : VF) (pos : Int) : Reach ph s t → Reach ph s ((File.seekLap ph (pcmSeekPage ph (rawSeek ph) pos)).run t).2
+  | rawLap (t : VF) (pos : Int) : Reach ph s t → Reach ph s ((File.seekLap ph (rawSeek ph pos)).run t).2
 
 theorem reach_inv {I : VF → Prop} (ops : InvOps I) (ph : Phys) (s t : VF) (h : Reach ph s t) (hs : I s) : I t := by
   induction h with
@@ -782,6 +807,9 @@ theorem reach_inv {I : VF → Prop} (ops : InvOps I) (ph : Phys) (s t : VF) (h :
   | seek t pos _ ih => exact inv_pcmSeek_raw ops ph pos t ih
   | page t pos _ ih => exact inv_pcmSeekPage_raw ops ph pos t ih
   | raw t pos _ ih => exact pres_rawSeek ops ph pos t ih
+  | seekLap t pos _ ih => exact pres_seekLap ops ph _ (fun v hv => inv_pcmSeek_raw ops ph pos v hv) t ih
+  | pageLap t pos _ ih => exact pres_seekLap ops ph _ (fun v hv => inv_pcmSeekPage_raw ops ph pos v hv) t ih
+  | rawLap t pos _ ih => exact pres_seekLap ops ph _ (pres_rawSeek ops ph pos) t ih
 
 /-- a seekable handle without stream state (just opened, or after any failed seek) is consistent -/
 theorem sinv_of_opened (s : VF) (hk : s.seekable = true) (hr : s.ready = OPENED) : SInv s := by
